@@ -16,7 +16,7 @@ from .mir import Fn, op_const, switch_edges
 EXPLANATION = ("Decides constant/sibling-agreement rules of the comparable sort-key encoding "
                "(ComparableEncode impls, null bytes, DESC inversion) on MIR of every impl; these are necessary "
                "conditions for ORDER BY to produce a sorted permutation. The ordering of actual rows is not decided.")
-NOT_DECIDED = ["k-way merge and heap ordering", "prefix tie-breaking through heap copies", "LIMIT/OFFSET slice arithmetic"]
+NOT_DECIDED = ["k-way merge and heap ordering (only the index-space discipline of SortLayout accesses is decided, C08-IDXSPACE)", "prefix tie-breaking through heap copies", "LIMIT/OFFSET slice arithmetic"]
 
 TRAIT = "glaredb_core::arrays::sort::sort_layout::ComparableEncode"
 BITS = {"i8": 8, "i16": 16, "i32": 32, "i64": 64, "i128": 128}
@@ -234,7 +234,108 @@ def run(ctx):
                 r.violate(fn.id, "invert_if_desc", "a path from the valid branch reaches the next row / return without calling "
                           "invert_if_desc: DESC keys would sort ascending", rec["file"], c.line)
     res.append(r)
+
+    # ---------------- IDXSPACE
+    res.append(rule_idxspace(facts))
     return res
+
+
+SL = "glaredb_core::arrays::sort::sort_layout::SortLayout"
+KEY_SPACE = {"columns", "column_widths", "offsets", "heap_mapping"}     # Vecs of SortLayout indexed by sort-key position
+UNWRAPS = ("Option::<T>::expect", "Option::<T>::unwrap", "Option::<T>::unwrap_unchecked")
+
+
+def _fieldpath(proj):
+    return [(p[1], p[2].rsplit("::", 1)[-1]) for p in proj if isinstance(p, list) and p[0] == "f" and len(p) > 2]
+
+
+def _space_of(fp):
+    """'key' / 'heap' / None for a field path of an indexed base"""
+    for i, (name, owner) in enumerate(fp):
+        if owner == "SortLayout":
+            if name in KEY_SPACE:
+                return "key", name
+            if name == "heap_layout" and i + 1 < len(fp):
+                return "heap", "heap_layout." + fp[i + 1][0]
+    return None, None
+
+
+def _index_root(facts, fn, op, at, depth=0):
+    """root of an index operand: ('heapmap',) when it is the payload of SortLayout::heap_mapping[..], otherwise a hashable
+    description of the root local/arg (closure captures are followed into the creating function)"""
+    o = fn.origin(op, at=at, through_calls=UNWRAPS)
+    if o[0] == "call":
+        c = o[1]
+        if c.decl.startswith("std::ops::Index") and c.args and c.args[0][0] in ("c", "m"):
+            bo = fn.origin(c.args[0], at=c.bb)
+            if len(bo) > 2 and _space_of(_fieldpath(bo[2]))[1] == "heap_mapping":
+                return ("heapmap",)
+        return ("call", fn.id, c.bb)
+    if o[0] == "arg" and "{closure" in fn.id and o[1] == 1 and depth < 3:
+        # captured variable: field N of the closure environment → operand N of the closure aggregate in the parent
+        fld = [p for p in o[2] if isinstance(p, list) and p[0] == "f" and p[1].isdigit()]
+        parent_id = fn.id.rsplit("::{closure", 1)[0]
+        precs = facts.fns_matching(lambda i: i == parent_id)
+        if fld and precs:
+            from .mir import Fn as _Fn
+            pf = _Fn(precs[0])
+            for b, i, pl, rv, ln in pf.assigns():
+                if rv[0] == "agg" and rv[1][0] == "closure" and rv[1][1] == fn.id:
+                    n = int(fld[0][1])
+                    if n < len(rv[2]):
+                        return _index_root(facts, pf, rv[2][n], b, depth + 1)
+    if o[0] in ("arg", "local"):
+        return (o[0], fn.id, o[1])
+    return ("other", fn.id, str(o[0]))
+
+
+def rule_idxspace(facts):
+    """SortLayout keeps two index spaces: sort-key positions (columns/column_widths/offsets/heap_mapping) and positions in the
+    heap row layout (heap_layout.*), related only through heap_mapping[key] = Some(heap). The ASC/DESC flag, key width and key
+    offset of a key must be read with the key position; the heap offset/type with the mapped heap position."""
+    r = RuleResult("C08-IDXSPACE", "no index value is used in both the sort-key and the heap-layout index space of SortLayout; "
+                   "a heap_mapping payload never indexes a key-space vector", floor=16)
+    sites = []
+    for rec in facts.all_fns(None):
+        if rec.get("krate") != "glaredb_core" or SL not in str(rec["bbs"]):
+            continue
+        fn = Fn(rec)
+        for c in fn.calls():
+            if not (c.decl.startswith("std::ops::Index") or c.name.endswith("::get") or c.name.endswith("::get_unchecked")
+                    or c.name.endswith("::get_mut")):
+                continue
+            if len(c.args) < 2 or c.args[0][0] not in ("c", "m"):
+                continue
+            bo = fn.origin(c.args[0], at=c.bb)
+            if len(bo) < 3 or not isinstance(bo[2], list):
+                continue
+            space, field = _space_of(_fieldpath(bo[2]))
+            if not space:
+                continue
+            r.functions.add(fn.id)
+            r.call_sites += 1
+            root = _index_root(facts, fn, c.args[1], c.bb)
+            sites.append((fn, rec, c, space, field, root))
+    # group closures with their parent function
+    def grp(fid):
+        return fid.split("::{closure", 1)[0]
+    by_root = {}
+    for fn, rec, c, space, field, root in sites:
+        if root[0] in ("arg", "local"):
+            by_root.setdefault((grp(root[1]), root[1], root[2]), set()).add(space)
+    for fn, rec, c, space, field, root in sites:
+        bad = None
+        if space == "key" and root == ("heapmap",):
+            bad = f"SortLayout::{field} is indexed by sort-key position but the index is a heap-layout position (payload of heap_mapping)"
+        elif space == "heap" and root[0] in ("arg", "local") and len(by_root.get((grp(root[1]), root[1], root[2]), ())) > 1:
+            # reported at the heap-space use: key positions are parameters everywhere, heap positions come from heap_mapping
+            bad = (f"the same index value is used both for a sort-key vector and for a heap-layout vector of SortLayout "
+                   f"(here: {field}); heap positions are obtained only through heap_mapping")
+        r.inst({"fn": fn.id, "field": field, "space": space, "index_root": root[0]}, bad is None)
+        if bad:
+            r.violate(fn.id, f"index:{field}", bad + " — ASC/DESC flag, widths or heap offsets of a different column would be used", rec["file"], c.line)
+    return r
+
 
 CLAIM = {
     "text": "Sibling/constant agreement rules over every ComparableEncode impl and key writer (sign-spread shift = BITS-1, "
